@@ -169,6 +169,19 @@ def build(tier, repo):
     chk.note_analysed("integer_division_sites", nd)
     r9.require(20)
 
+    r11 = chk.rule("C19-R11", "a result that may be Py_NotImplemented is tested before matrix fields are read from it",
+                   "the interpreter is never crashed by an operand of an unexpected Python type")
+    from .. import cstate
+    nn = cstate.notimplemented_rule(r11, cs)
+    chk.note_analysed("notimplemented_consumers", nn)
+    r11.require(1)
+
+    r12 = chk.rule("C19-R12", "every call through a per-type dispatch table excludes the types whose table entry is NULL",
+                   "the interpreter is never crashed (sparse products on unsupported type combinations are refused)")
+    nt = cstate.null_table_rule(r12, cs)
+    chk.note_analysed("null_entry_dispatch_calls", nt)
+    r12.require(6)
+
     r10 = chk.rule("C19-R10", "real / complex sparse kernels (separate functions) address x, y and the CCS arrays with the same index expressions",
                    "sparse products read and write only inside the documented footprints of their dense operands")
     nk = cw.sibling_function_rule(r10, cs["sparse.c"], [
